@@ -338,6 +338,21 @@ def eval_matsubara(case):
                 affected[name] = abs(model - ref) > 0.01 * tol and abs(float(v) - model) < dev
                 if dev > tol:
                     pinned[name] = bool(abs(float(v) - model) <= tol)
+            # positioned triangles and a rectangle in imaginary time against the 1D overlap-weight integral of the
+            # object's own imaginary-time correlation function (same sign convention as the cells above: minus)
+            xg, wg = O.gl(24)
+            for k in range(1, min(3, nst - 1) + 1):
+                t1 = k * d
+                nodes = t1 + 0.5 * d * (xg + 1)
+                cvals = np.array([float(np.real(lib.correlation(float(u), matsubara=True))) for u in nodes])
+                own = -float(np.sum(0.5 * d * wg * (t1 + d - nodes) * cvals))
+                v = lib.correlation_2d_integral(d, t1, shape="upper-triangle", matsubara=True)
+                name = f"tri@{k}"
+                if not _is_real_number(v):
+                    recs.append(("matsubara-real", name, 1.0, 0.0, complex(v), 0.0))
+                    continue
+                s_ = eta[k + 1] + eta[k] + d * abs(float(np.sum(0.5 * d * wg * np.abs(cvals)))) * k
+                recs.append(("matsubara-selfint", name, abs(float(v) - own), tolf(s_, 3), float(v), own))
             for k in range(1, nst):
                 if k < nst - k and f"sq{k}" in got and f"sq{nst - k}" in got:
                     na, nb = f"sq{k}", f"sq{nst - k}"
